@@ -2,18 +2,18 @@ import OpacusLean.Model.Mha
 import Mathlib.Tactic.Ring
 import Mathlib.Algebra.BigOperators.Fin
 import Mathlib.Algebra.BigOperators.Ring.Finset
-/-! Index lemmas for the C14 model: memoisation is the identity, row-major encode/decode are
+/-! Index lemmas for the C14 model: materialisation (`Buf`) is the identity, row-major encode/decode are
 inverse, `view` regroupings used by the head split / merge. -/
 namespace Opacus.Mha
 
-@[simp] theorem memo_eq {α n} (f : Fin n → α) : memo f = f := by
-  funext i; simp [memo, Buf.get, Buf.ofFn]
+@[simp] theorem get_ofFn {α n} (f : Fin n → α) : (Buf.ofFn f).get = f := by
+  funext i; simp [Buf.get, Buf.ofFn]
 
-@[simp] theorem memo2_eq {α a b} (f : Fin a → Fin b → α) : memo2 f = f := by
-  funext i; simp [memo2]
+@[simp] theorem get₂_ofFn₂ {α a b} (f : Fin a → Fin b → α) : (Buf.ofFn₂ f).get₂ = f := by
+  funext i j; simp [Buf.get₂, Buf.ofFn₂]
 
-@[simp] theorem memo3_eq {α a b c} (f : Fin a → Fin b → Fin c → α) : memo3 f = f := by
-  funext i; simp [memo3]
+@[simp] theorem get₃_ofFn₃ {α a b c} (f : Fin a → Fin b → Fin c → α) : (Buf.ofFn₃ f).get₃ = f := by
+  funext i j k; simp [Buf.get₃, Buf.ofFn₃]
 
 @[simp] theorem decL_enc2 {a b} (i : Fin a) (j : Fin b) : decL (enc2 i j) = i := by
   apply Fin.ext
